@@ -68,6 +68,8 @@ class LoopSpec:
         self.sync = compile_expr(spec["sync"]) if "sync" in spec else None     # pointer is in step with the code
         self.fields = spec.get("fields", {})        # object name -> {field: kind} havocked at the loop head
         self.writer = spec.get("writer")            # name of the writer object emissions go through
+        self.multi_token = spec.get("multi_token", False)   # one emission may span several specification tokens
+        self.str_stream = spec.get("str_stream", False)     # the stream is a list of strings (joined at the end)
 
     def _eval(self, ex, st, tree):
         g = st.env.get("__globals__")
@@ -146,6 +148,9 @@ class LoopSpec:
         if k is None:
             raise Unsupported("symbolic offset inside a unit")
         items = [VInt(ex.char_code(x)) if isinstance(x, VStr) else x for x in items]
+        if not items:
+            yield st
+            return
         saved_env = st.env
         st.env = self._with_env(st)
         depth = len(st.handled)
@@ -160,6 +165,17 @@ class LoopSpec:
                 unit, consumed = v.items
                 m = len(items)
                 if k + m > len(unit.items):
+                    if getattr(self, "multi_token", False):
+                        # one emission covers several tokens (a run of escapes copied verbatim): match
+                        # the rest of this unit, advance, and go on with the remaining characters
+                        take = len(unit.items) - k
+                        goal = z3.And([ex.equal(s2, a, b) for a, b in zip(items[:take], unit.items[k:])] + [z3.BoolVal(True)])
+                        ex.oblige(s2, f"emit:{stream.name}==spec-unit[{k}:{k + take}]", "emit", goal, node)
+                        s2.ctx.assume(goal)
+                        self._token_done(ex, s2, unit, consumed, saved_env)
+                        keep_env = s2.env
+                        yield from self.emit(ex, s2, stream, items[take:], node)
+                        continue
                     ex.oblige(s2, f"emit:{stream.name}:{k}+{m} characters emitted for a unit of {len(unit.items)}",
                               "emit", z3.BoolVal(False), node)
                     s2.ghost = dict(s2.ghost)
